@@ -33,6 +33,8 @@ PAYLOADS = [
     "--", "-- x", ";", "; SELECT 1", "\"", "\"\"", "\" OR \"\"=\"", "\x00", "\x00'", "’", "ʼ", "’ OR 1=1", "`",
     "$$", "'||'", "' || (SELECT 1) || '", "') OR ('1'='1", "%' ESCAPE '\\",
     "＇ OR 1=1 --", "a＇b", "＼＇", "％＿",
+    "2021-05-05' OR '1'='1", "2021-05-05') OR ('1'='1", "2021-05-05T10:00:00Z' --", "12:30:00' OR 1=1 --",
+    "123e4567-e89b-12d3-a456-426614174000' OR '", "true' OR 't'='t", "1' OR '1'='1", "P1D' --",
 ]
 ADV_ALPHABET = "ab'\"\\%_;-/* \x00’ʼ()|=1\n＇＂＼％＿；﹨﹣＊／"   # incl. compatibility forms that NFKC-normalise to metacharacters
 
@@ -275,6 +277,18 @@ def exhaustive_templates():
     yield ("cmp", "eq", ("call", "substring", (), (S, ("lit", "int", "1"), ("lit", "int", "2"))), S)
     yield ("cmp", "eq", c, S)
     yield ("cmp", "ne", S, c)
+    # accepted (if ill-typed) comparisons of a string with every other kind of operand, both sides
+    others = [("id", "d1", ()), ("id", "t1", ()), ("id", "i1", ()), ("id", "b1", ()),
+              ("call", "date", (), (("id", "t1", ()),)), ("call", "year", (), (("id", "t1", ()),)),
+              ("call", "length", (), (("id", "s1", ()),)), ("lit", "date", "2020-01-01"),
+              ("lit", "datetime", "2020-01-01T00:00:00Z"), ("lit", "int", "5"), ("lit", "bool", "true"),
+              ("lit", "guid", "123e4567-e89b-12d3-a456-426614174000"), ("lit", "duration", "P1D"),
+              ("bin", "add", ("id", "i1", ()), ("lit", "int", "1"))]
+    for o in others:
+        for op in ("eq", "ne", "lt", "ge"):
+            yield ("cmp", op, o, S)
+            yield ("cmp", op, S, o)
+        yield ("cmp", "in", o, ("list", (S, S)))
     yield ("cmp", "in", c, ("list", (S, S, S)))
     yield ("cmp", "in", S, ("list", (c, S)))
     yield ("un", "not", ("cmp", "eq", c, S))
